@@ -7,6 +7,11 @@ Next == UNCHANGED x
 Finite(f) == f # NaNCode
 Verdict(o) ==
   IF o.obs.result # "ok" THEN "values-call-failed"
+  ELSE IF "exact" \in DOMAIN o /\ o.exact = 0 THEN
+       (IF o.bins = 0 THEN (IF PerBaseOK(o.kind, o.items, o.len, o.s, o.e, o.missing, o.oob, o.obs.out) THEN "ok" ELSE "per-base")
+        ELSE IF Finite(o.missing) /\ Finite(o.oob) /\ ~ZoomModeOK(o.kind, o.items, o.len, o.s, o.e, o.bins, o.missing, o.oob, o.obs.out) THEN "default-mode-bin-outside-data-range"
+        ELSE IF Finite(o.missing) /\ (Finite(o.oob) \/ (o.s >= 0 /\ o.e <= o.len)) /\ \E k \in 1..Len(o.obs.out) : o.obs.out[k][2] = 1 THEN "default-mode-nan"
+        ELSE "ok")
   ELSE IF o.bins = 0 THEN (IF PerBaseOK(o.kind, o.items, o.len, o.s, o.e, o.missing, o.oob, o.obs.out) THEN "ok" ELSE "per-base")
   ELSE IF (o.e - o.s) % o.bins = 0
        THEN (IF ExactBinsOK(o.kind, o.items, o.len, o.s, o.e, o.bins, o.stat, o.missing, o.oob, o.obs.out) THEN "ok" ELSE "exact-bins")
